@@ -370,44 +370,55 @@ def blend_check(d, cfg, img, p):
 
 
 def image_patch_cases(ctx, d, lines, impl):
+    """Guarded wrapper: a case whose results cannot be formatted becomes a correspondence difference."""
+    for k in range(ctx.pick(40, 300)):
+        try:
+            _image_patch_case(ctx, d, lines, impl, k)
+        except Exception as e:  # noqa: BLE001
+            k_ = min(len(lines), len(impl))
+            del lines[k_:], impl[k_:]
+            lines.append(f"harness-guard image-patch-case-{k}")
+            impl.append(f"!implementation-result-not-formattable:{type(e).__name__}:{str(e)[:80]}".replace(" ", "_"))
+
+
+def _image_patch_case(ctx, d, lines, impl, k):
     """Patches as IMAGES against DarsiaModel.PatchesImg: per-patch metadata and the whole pixel array, scalar and vector
     payload; refusal of space-time and 3-D images; blend_and_assemble as it stands."""
     rng = ctx.rng
-    for k in range(ctx.pick(40, 300)):
-        kind = ("scalar", "vector", "series", "3d")[k % 4 if k % 8 < 6 else k % 2]
-        dim = 3 if kind == "3d" else 2
-        r = c02.gen_root(rng, 0, dim=dim, series=(kind == "series"), vector=(kind == "vector"), tkind="none",
-                         shape=tuple(rng.randint(1, 6 if dim == 2 else 3) for _ in range(dim)))
-        img = c02.build_root(d, r)
-        if isinstance(img, Raised):
-            continue
-        origin = [float(x) for x in np.asarray(img.origin)]
-        N = r["shape"]
-        n = [rng.randint(1, 4) for _ in range(2)]
-        rel = rng.choice([0, 0.125, 0.25, 0.5])
-        p = call(d.Patches, img, n, rel_overlap=rel)
-        C = "1 2" if r["vector"] else "0"
-        root = c02.root_tokens(r, origin)
-        ctx.count(("image-patch", kind, json.dumps(r), n, rel))
-        if kind in ("series", "3d"):
-            lines.append(f"apatch {C} {root} {N[0]} {n[0]} 1 0 {N[1]} {n[1]} 1 0 0 0")
-            impl.append(repr(p) if isinstance(p, Raised) else "built")
-            if not isinstance(p, Raised):
-                pass  # a future extension; the model then has to follow
-            continue
-        if isinstance(p, Raised):
-            ctx.fail(f"C19:Patches(...):raises:{p!r}", f"Patches on a 2-D {kind} image raises {p!r}", {"root": r, "n": n, "rel": rel})
-            continue
-        pv, ov = [int(x) for x in p.pv], [int(x) for x in p.ov]
-        A = f"{N[0]} {n[0]} {pv[0]} {ov[0]} {N[1]} {n[1]} {pv[1]} {ov[1]}"
-        for (i, j) in {(0, 0), (n[0] - 1, n[1] - 1), (rng.randrange(n[0]), rng.randrange(n[1]))}:
-            P = p(i, j)
-            lines.append(f"apatch {C} {root} {A} {i} {j}")
-            dim_ = 2
-            impl.append(" ".join(str(int(x)) for x in P.img.shape[:dim_]) + " | " + fmts(P.dimensions) + " | " + fmts(np.asarray(P.origin)) + " | " + c02.arr_str(P))
-        lines.append(f"blend {A}")
-        b = call(p.blend_and_assemble)
-        impl.append(repr(b) if isinstance(b, Raised) else "grid")
+    kind = ("scalar", "vector", "series", "3d")[k % 4 if k % 8 < 6 else k % 2]
+    dim = 3 if kind == "3d" else 2
+    r = c02.gen_root(rng, 0, dim=dim, series=(kind == "series"), vector=(kind == "vector"), tkind="none",
+                     shape=tuple(rng.randint(1, 6 if dim == 2 else 3) for _ in range(dim)))
+    img = c02.build_root(d, r)
+    if isinstance(img, Raised):
+        return
+    origin = [float(x) for x in np.asarray(img.origin)]
+    N = r["shape"]
+    n = [rng.randint(1, 4) for _ in range(2)]
+    rel = rng.choice([0, 0.125, 0.25, 0.5])
+    p = call(d.Patches, img, n, rel_overlap=rel)
+    C = "1 2" if r["vector"] else "0"
+    root = c02.root_tokens(r, origin)
+    ctx.count(("image-patch", kind, json.dumps(r), n, rel))
+    if kind in ("series", "3d"):
+        lines.append(f"apatch {C} {root} {N[0]} {n[0]} 1 0 {N[1]} {n[1]} 1 0 0 0")
+        impl.append(repr(p) if isinstance(p, Raised) else "built")
+        if not isinstance(p, Raised):
+            pass  # a future extension; the model then has to follow
+        return
+    if isinstance(p, Raised):
+        ctx.fail(f"C19:Patches(...):raises:{p!r}", f"Patches on a 2-D {kind} image raises {p!r}", {"root": r, "n": n, "rel": rel})
+        return
+    pv, ov = [int(x) for x in p.pv], [int(x) for x in p.ov]
+    A = f"{N[0]} {n[0]} {pv[0]} {ov[0]} {N[1]} {n[1]} {pv[1]} {ov[1]}"
+    for (i, j) in {(0, 0), (n[0] - 1, n[1] - 1), (rng.randrange(n[0]), rng.randrange(n[1]))}:
+        P = p(i, j)
+        lines.append(f"apatch {C} {root} {A} {i} {j}")
+        dim_ = 2
+        impl.append(" ".join(str(int(x)) for x in P.img.shape[:dim_]) + " | " + fmts(P.dimensions) + " | " + fmts(np.asarray(P.origin)) + " | " + c02.arr_str(P))
+    lines.append(f"blend {A}")
+    b = call(p.blend_and_assemble)
+    impl.append(repr(b) if isinstance(b, Raised) else "grid")
 
 
 def configs(ctx):
@@ -463,7 +474,11 @@ def run(ctx):
     stride = max(1, len(cfgs) // ncorr)
     dist = {"dyadic": 0, "general": 0, "dividing": 0, "non-dividing": 0, "with-overlap": 0, "empty-patches": 0, "colour": 0, "not-buildable": 0}
     for k, cfg in enumerate(cfgs):
-        fails, tables, info = evaluate(d, cfg, want_tables=(k % stride == 0))
+        ev_ = call(evaluate, d, cfg, want_tables=(k % stride == 0))
+        if isinstance(ev_, Raised):  # unexpected shape / type of a public table: a failing input, not a harness error
+            ctx.fail(f"C19:implementation-result-unusable:{type(ev_.exc).__name__}", f"the statement could not be evaluated on this configuration: {ev_.exc!r}", {"config": cfg})
+            continue
+        fails, tables, info = ev_
         ctx.count(("config", json.dumps(cfg)), n=cfg["n"][0] * cfg["n"][1])
         dist[cfg["regime"]] += 1
         dist["dividing" if all(cfg["N"][a] % cfg["n"][a] == 0 for a in range(2)) else "non-dividing"] += 1
